@@ -10,7 +10,7 @@ open AbtemVerif AbtemVerif.Proto AbtemVerif.Aberr AbtemVerif.Gen.ChiF AbtemVerif
      chi <alpha> <phi> <values>                     -> ok <chi>            (guarded accumulation, before scaling)
      symbols                                        -> ok <symbolKeys>
      resolve <name>                                 -> ok <symbol or the name itself> <T|F is a symbol>
-     attrs <op>;<op>;…    op = s=<name>=<bits> | g=<name>   (from a fresh object)
+     attrs <op>;<op>;…    op = s=<name>=<bits> | g=<name> | u=<name>=<bits>=<name>=<bits>… (set_aberrations)   (from a fresh object)
                                                     -> ok <result>;…|<values>   result = ok | <bits> | err:<kind> -/
 
 def isZeroF (x : Float) : Bool := x == 0
@@ -38,6 +38,19 @@ def runOp (d : Dict Float) (op : String) : Option (Dict Float × String) :=
       match setAttr c10OfDefocus d name v with
       | .ok d' => (d', "ok")
       | .error e => (d, s!"err:{e}")
+  | ("u" :: rest) =>
+      -- u=<name>=<bits>=<name>=<bits>… : obj.set_aberrations({name: value, …})
+      let rec items : List String → Option (List (String × Float))
+        | [] => some []
+        | name :: b :: more => do
+            let v ← parseFloatBits? b
+            let tl ← items more
+            pure ((name, v) :: tl)
+        | _ => none
+      (items rest).map fun its =>
+        match setAberrations c10OfDefocus d its with
+        | .ok d' => (d', "ok")
+        | .error e => (d, s!"err:{e}")
   | ["g", name] =>
       match getAttr defocusOfC10 0 d name with
       | .ok v => some (d, showFloatBits v)
